@@ -17,6 +17,20 @@ type NetOp struct {
 	K     int       `json:"k,omitempty"`
 	Vec   []float64 `json:"vec,omitempty"`
 	Delta float64   `json:"delta,omitempty"`
+	Wild  []int     `json:"extreme_values,omitempty"` // load: the vector consists of extremeSignals[i]
+}
+
+var extremeSignals = []float64{1e308, -1e308, math.Inf(1), math.Inf(-1), math.NaN(), -1, 5e-324}
+
+func (op NetOp) vector() []float64 {
+	if len(op.Wild) == 0 {
+		return op.Vec
+	}
+	v := make([]float64, len(op.Wild))
+	for i, k := range op.Wild {
+		v[i] = extremeSignals[k%len(extremeSignals)]
+	}
+	return v
 }
 
 type C13Case struct {
@@ -32,11 +46,27 @@ type C13Case struct {
 	Seq     []NetOp     `json:"sequence"`
 }
 
-func drawNetOps(t *rapid.T, label string, n, nIn, nSensors int, fast bool) []NetOp {
-	kinds := []string{"load", "load", "activate", "forward", "recursive", "depth"}
-	if fast {
-		kinds = []string{"load", "load", "forward", "forward", "recursive", "relax"}
+// failingWriter accepts K bytes and then reports an error (a pipe that was closed, a full disk).
+type failingWriter struct{ left int }
+
+func (w *failingWriter) Write(p []byte) (int, error) {
+	if len(p) > w.left {
+		n := w.left
+		w.left = 0
+		return n, fmt.Errorf("injected write error")
 	}
+	w.left -= len(p)
+	return len(p), nil
+}
+
+func drawNetOps(t *rapid.T, label string, n, nIn, nSensors int, fast bool) []NetOp {
+	// "flush": a flush in the middle of a history or of a sequence; "paths" (standard network): the activation paths are
+	// printed to a writer that fails after K bytes - a read-only dump that shares the traversal marks with the depth queries
+	kinds := []string{"load", "load", "activate", "forward", "recursive", "depth", "flush", "paths"}
+	if fast {
+		kinds = []string{"load", "load", "forward", "forward", "recursive", "relax", "flush"}
+	}
+	history := label == "history"
 	var ops []NetOp
 	for i := 0; i < n; i++ {
 		op := NetOp{Kind: rapid.SampledFrom(kinds).Draw(t, label+" op")}
@@ -46,11 +76,20 @@ func drawNetOps(t *rapid.T, label string, n, nIn, nSensors int, fast bool) []Net
 			if !fast && nSensors != nIn && rapid.IntRange(0, 3).Draw(t, "load bias too") == 0 {
 				l = nSensors
 			}
+			wild := history && rapid.IntRange(0, 5).Draw(t, "extreme sensor values") == 0
 			for j := 0; j < l; j++ {
+				if wild {
+					// before the flush anything may have gone through the network: huge, infinite and undefined signals
+					// (stored as indices into extremeSignals: JSON has no syntax for them)
+					op.Wild = append(op.Wild, rapid.IntRange(0, len(extremeSignals)-1).Draw(t, "x"))
+					continue
+				}
 				op.Vec = append(op.Vec, rapid.OneOf(rapid.Float64Range(-2, 2), rapid.SampledFrom([]float64{0, 1, -1, 0.5, 10})).Draw(t, "x"))
 			}
 		case "activate", "forward", "depth":
 			op.K = rapid.IntRange(0, 6).Draw(t, "k")
+		case "paths":
+			op.K = rapid.SampledFrom([]int{0, 1, 5, 20, 60, 1 << 20}).Draw(t, "bytes accepted")
 		case "relax":
 			op.K = rapid.IntRange(0, 6).Draw(t, "k")
 			op.Delta = rapid.SampledFrom([]float64{0, 1e-9, 0.1, math.SmallestNonzeroFloat64}).Draw(t, "delta")
@@ -147,7 +186,7 @@ func errText(err error) string {
 func applyNetOp(x netOrSolver, op NetOp) string {
 	switch op.Kind {
 	case "load":
-		return "load:" + errText(x.solver.LoadSensors(op.Vec))
+		return "load:" + errText(x.solver.LoadSensors(op.vector()))
 	case "activate":
 		ok, err := x.net.ActivateSteps(op.K)
 		return fmt.Sprintf("activate:%v:%s", ok, errText(err))
@@ -163,6 +202,15 @@ func applyNetOp(x netOrSolver, op NetOp) string {
 	case "relax":
 		ok, err := x.solver.Relax(op.K, op.Delta)
 		return fmt.Sprintf("relax:%v:%s", ok, errText(err))
+	case "flush":
+		ok, err := x.solver.Flush()
+		return fmt.Sprintf("flush:%v:%s", ok, errText(err))
+	case "paths":
+		if len(x.net.AllNodes()) > 40 {
+			return "paths: skipped (large network)"
+		}
+		err := network.PrintAllActivationDepthPaths(x.net, &failingWriter{left: op.K})
+		return fmt.Sprintf("paths:%v", err != nil)
 	}
 	return "harness: unknown op"
 }
